@@ -401,4 +401,7 @@ RULES = [
     ("R-C06-5", "script commands (.cat/.head/.append) are constructed with the owning frame's context and keep it", r5),
     ("R-C06-6", "the context index range stays inside [ctx, ctx+1) (shared with R-C01-1)", rule_range_bounds),
     ("R-C06-7", "a handler's own subscription is scoped to self.context_id", r7),
+    ("R-C06-9", "objects that carry a context (commands with their engine, handlers, generator tasks) are kept only in registries keyed by "
+                "(context_id, name): a cache keyed by name or by content hash hands one context's object to another (shared with R-C17-1)",
+     lambda run: __import__("rules.C17", fromlist=["r1"]).r1(run)),
 ]
